@@ -219,6 +219,7 @@ func run(c *vf.Ctx) {
 		partA(&env{c: c, name: "ecdsa-p384 subject, rsa CA", ca: rsaSK(2048, seed+"CA"), ca2: rsaSK(2048, seed+"CA2"), subj: ecSK(elliptic.P384(), seed+"subject")})
 	}
 	partA2(e)
+	partA3(e)
 	partB(e, seed)
 	partC(e, seed)
 	partD(e)
@@ -392,6 +393,62 @@ func partA(e *env) {
 				c.Sample(map[string]any{"part": "A", "type": typeVals[g.ti], "principals": princSets[g.pi], "valid_after": "now", "valid_before": "2^64-1", "critical": critNames[g.ci], "cert_bytes": len(b)})
 			}
 		})
+	}
+}
+
+// partA3: the REQUESTED principal varies (user name given by the client, host name dialled),
+// including the empty string, against every principal list shape; the decision must be the
+// reference's: a non-empty list must contain exactly the requested name.
+func partA3(e *env) {
+	c := e.c
+	reqs := []string{"", princ, "other", "Host.Example", "host"}
+	sets := [][]string{nil, {princ}, {"other"}, {""}, {"", princ}, {princ, ""}, {"other", "x"}, {"host"}}
+	idx := 0
+	for _, ty := range []uint32{cr.User, cr.Host} {
+		for si, set := range sets {
+			ct := &cr.Cert{TypeName: sr.CertTypeOf(sr.ED25519), Nonce: c.Bytes("nonce3", idx, 32), KeyFields: e.subj.pub.KeyFields(), Serial: 7, CertType: ty,
+				KeyID: "req", Principals: set, ValidAfter: 0, ValidBefore: cr.Forever}
+			idx++
+			ct.SignWith(e.ca.pub.Blob(), func(tbs []byte) sr.Sig { return e.ca.sign("", tbs) })
+			key, err := ssh.ParsePublicKey(ct.Bytes())
+			if err != nil {
+				c.Violation("requested-principal grid: ParsePublicKey rejects a well-formed certificate", err.Error())
+				continue
+			}
+			const now = 1_700_000_000
+			ch := e.checker(now, true, 0, supportedOpts)
+			ch.IsHostAuthority = func(a ssh.PublicKey, addr string) bool { return e.trusted(a.Marshal()) } // any address: the principal check is the subject here
+			for _, req := range reqs {
+				for en := range entries {
+					var gerr error
+					p, v, _ := vf.Protect(func() {
+						switch en {
+						case 0:
+							gerr = ch.CheckCert(req, key.(*ssh.Certificate))
+						case 1:
+							_, gerr = ch.Authenticate(connMeta{req}, key)
+						case 2:
+							gerr = ch.CheckHostKey(req+":22", &net.TCPAddr{IP: net.IPv4(10, 0, 0, 1), Port: 22}, key)
+						}
+					})
+					c.Eval(1)
+					cfg := refCfg(e, en, now, supportedOpts, false)
+					cfg.Principal = req
+					want, reason := cr.DecideFields(ct, cfg)
+					det := map[string]any{"entry": entries[en], "requested": req, "principals": set, "type": ty, "reference": reason, "go_err": fmt.Sprint(gerr)}
+					switch {
+					case p:
+						det["panic"] = fmt.Sprint(v)
+						c.Violation("requested-principal grid: "+entries[en]+" panics", det)
+					case gerr == nil && !want:
+						c.Violation("requested-principal grid: "+entries[en]+" accepts a certificate for a principal it does not list ["+reason+"]", det)
+					case gerr != nil && want:
+						c.Violation("requested-principal grid: "+entries[en]+" rejects a certificate the reference accepts", det)
+					}
+					c.Nontrivial(fmt.Sprintf("A3/%d/%d/%s/%s", ty, si, req, entries[en]))
+				}
+			}
+		}
 	}
 }
 
